@@ -332,7 +332,7 @@ pub fn run(ctx: &Ctx) -> i32 {
         }),
         _ => {}
     }
-    let (shards, cases) = ctx.tier.pick((8, 4000), (64, 40_000));
+    let (shards, cases) = ctx.tier.pick((16, 16000), (64, 40_000));
     let (mut stats, v1) = run_shards(ctx, "random", shards, cases, case_strategy, check_case);
     viol.extend(v1);
     // directed: every batch length around the first 4 steps, one read
